@@ -533,7 +533,7 @@ func TestC08Windows(t *testing.T) {
 		}
 	}()
 	rapid.Check(t, func(rt *rapid.T) {
-		c := &WinCase{Rollover: int64(pick(rt, []int{60, 130, 250}, "rollover")), Keep: rapid.Bool().Draw(rt, "keep"), V1: uni(rt, 4, "v1") == 3}
+		c := &WinCase{Rollover: int64(pick(rt, []int{60, 130, 250}, "rollover")), Keep: uni(rt, 3, "keep") > 0, V1: uni(rt, 4, "v1") == 3}
 		w, err := newWinEnv(c)
 		if err != nil {
 			rt.Fatalf("open: %v", err)
@@ -595,6 +595,50 @@ func TestC08Windows(t *testing.T) {
 			nb := 1 + uni(rt, 2, "nb")
 			for i := 0; i < nb; i++ {
 				c.Bs = append(c.Bs, g.call(allCallKinds))
+			}
+			// focused templates (half of the cases): the calls inside the window touch what A is working on
+			if rapid.Bool().Draw(rt, "focused") {
+				newest := func() []int64 {
+					if len(w.m.Live) == 0 {
+						return []int64{0}
+					}
+					return []int64{w.m.Live[len(w.m.Live)-1].Off}
+				}
+				rollingPublish := func() *SCall { // enough bytes to pass every rollover size used here
+					return &SCall{Kind: "publish", Msgs: g.msgs(4 + uni(rt, 3, "n"))}
+				}
+				switch c.A.Kind {
+				case "delete":
+					if c.Point != "delete.before-swap" && rapid.Bool().Draw(rt, "head_delete") {
+						c.A.Set = newest() // a delete in the writing segment ...
+					}
+					c.Bs = []*SCall{rollingPublish()} // ... while a publish rolls it over
+					if rapid.Bool().Draw(rt, "then_more") {
+						c.Bs = append(c.Bs, g.call([]string{"publish", "consume", "get", "delete", "sync", "next", "stat"}))
+					}
+				case "publish":
+					c.Bs = []*SCall{g.call([]string{"delete", "delete", "gc", "stat", "sync", "next", "consume", "getbykey", "getbytime"})}
+					if c.Bs[0].Kind == "delete" && rapid.Bool().Draw(rt, "head_delete") {
+						c.Bs[0].Set = newest()
+					}
+					if rapid.Bool().Draw(rt, "then_more") {
+						c.Bs = append(c.Bs, g.call([]string{"consume", "get", "consumebykey", "publish"}))
+					}
+				case "gc":
+					b := g.call([]string{"consume", "get", "getbykey", "getbytime", "consumebykey", "delete"})
+					if b.Kind == "consume" || b.Kind == "get" || b.Kind == "consumebykey" {
+						b.Off = oldLive()
+					} else if b.Kind == "delete" {
+						b.Set = []int64{oldLive()}
+					}
+					c.Bs = []*SCall{b, {Kind: "gc"}}
+				default: // a read held inside a reader segment: unload it, delete in it
+					c.Bs = []*SCall{{Kind: "gc"}, {Kind: "delete", Set: []int64{oldLive()}}}
+					if rapid.Bool().Draw(rt, "swap") {
+						c.Bs[0], c.Bs[1] = c.Bs[1], c.Bs[0]
+					}
+				}
+				st.Inc("focused_cases")
 			}
 			hit := w.window(st)
 			st.Eval(1)
